@@ -7,7 +7,7 @@
    ([None] only when an allocator answer supplied with a [New] is not a free pool address).
    [c_ordered c = true] is the repaired write discipline: writes and deletes of one session take effect in issue
    order.  [c_ordered c = false] is what the code does today (an asynchronous Put applies whenever it completes). *)
-From OV Require Import Common.Base C12.Model C12.Proofs.
+From OV Require Import Common.Base C12.Model C12.Proofs C12.OWModel C12.OWProofs.
 Open Scope N_scope.
 
 (* Released sessions stay gone: for every history, every completion order of the checkpoint writes and every crash
@@ -22,15 +22,28 @@ Theorem C12_released_stay_gone :
 Proof. exact released_stay_gone. Qed.
 Print Assumptions C12_released_stay_gone.
 
-(* the code as it is today violates it: the Put of a checkpoint completes after the Delete of the same session *)
 Definition est (i : N) : newspec :=
   {| n_id := i; n_bound := true; n_rel4 := false; n_appr := true; n_crea := true; n_v6b := false; n_a4 := AAlloc; n_a6 := ANone;
      n_apd := ANone; n_l4 := 3600; n_b4 := Some (-10)%Z; n_l6 := 0; n_b6 := None |}.
+(* [ops] ranges over every fault pattern as well: [Poison t always] makes the Put with ticket t return a transient
+   Store error (once, or on every attempt), [Done t retried] completes it with either reaction the write-order
+   contract admits (dropped, or repeated in its ORIGINAL slot = the ticket stays pending), [CksF i] is a synchronous
+   checkpoint whose Put fails.  Concrete instance: the in-flight checkpoint of session 0 fails after the release was
+   issued and is retried twice — session 0 stays gone. *)
+Example C12_released_stay_gone_faults :
+  exists s, run (repaired IPoE 4 4 2) init
+     [New (est 0) (Some 0) None None; Ck 0; Poison 0 false; Rel 0; Done 0 true; Done 0 true; Done 0 false;
+      Crash true None 0%Z] = Some s /\
+   In 0 (released s) /\ aget 0 (live s) = None /\ aget 0 (store s) = None.
+Proof. eexists. split; [vm_compute; reflexivity|]. cbn. auto. Qed.
+Print Assumptions C12_released_stay_gone_faults.
+
+(* the code as it is today violates it: the Put of a checkpoint completes after the Delete of the same session *)
 Theorem C12_released_stay_gone_refuted :
   exists p ops s, run (today p 4 4 2) init ops = Some s /\ In 0 (released s) /\ aget 0 (live s) <> None /\
                   aget 0 (store s) <> None.
 Proof.
-  exists IPoE, [New (est 0) (Some 0) None None; Ck 0; Rel 0; Done 0; Crash true None 0%Z].
+  exists IPoE, [New (est 0) (Some 0) None None; Ck 0; Rel 0; Done 0 false; Crash true None 0%Z].
   eexists. split; [vm_compute; reflexivity|]. cbn. repeat split; auto; discriminate.
 Qed.
 Print Assumptions C12_released_stay_gone_refuted.
@@ -101,6 +114,30 @@ Proof.
 Qed.
 Print Assumptions C12_partial_release_nonvacuous.
 
+(* The mechanism the repaired write order rests on: pkg/opdb/ordered.go (model OWModel.v, one key).  For every
+   sequence of issues (PutAsync / Put / Delete take their slot when issued) and completions of the write that is at
+   the Store — in any interleaving, each completion succeeding or failing (fault pattern) — the effects that reached
+   the Store are in strictly increasing issue order (log is newest first), the stored value is the effect of the
+   latest of them, and consequently a Put issued before a Delete never takes effect after it. *)
+Theorem C12_writer_issue_order :
+  forall evs, let w := ow_run evs in
+  desc (map fst (q_log w)) /\
+  q_val w = match q_log w with [] => None | (_, WPut v) :: _ => Some v | (_, WDel) :: _ => None end /\
+  (forall d s v, In (d, WDel) (q_log w) -> In (s, WPut v) (q_log w) -> (s < d)%N ->
+     exists l1 l2 l3, q_log w = l1 ++ (d, WDel) :: l2 ++ (s, WPut v) :: l3).
+Proof. exact writer_issue_order. Qed.
+Print Assumptions C12_writer_issue_order.
+
+(* non-vacuity: checkpoint v1 in flight, v2 and a Delete queued, v1 fails: v2 is skipped as obsolete, the Delete is the
+   only effect; then a fresh Put lands *)
+Example C12_writer_nonvacuous :
+  let w := ow_run [OIssue (WPut 1); OIssue (WPut 2); OIssue WDel; OComplete false; OComplete true;
+                   OIssue (WPut 3); OComplete true] in
+  q_log w = [(3, WPut 3); (2, WDel)]%N /\ q_val w = Some 3%N /\ q_infl w = None /\
+  q_res w = [(0, false); (1, true); (2, true); (3, true)]%N.
+Proof. vm_compute. repeat split. Qed.
+Print Assumptions C12_writer_nonvacuous.
+
 (* Addresses are reserved again before any new subscriber can be allocated one.  For every history (any completion
    order, crashes and restores anywhere — so in particular in the state right after a restart and at every later
    point) under the repaired write order, for IPoE or for PPPoE with the reservation in installInMemoryState:
@@ -142,7 +179,7 @@ Theorem C12_reserved_before_alloc_refuted :
   exists ops s r0 r1, run pp_no_reserve init ops = Some s /\
     aget 0 (live s) = Some r0 /\ aget 1 (live s) = Some r1 /\ s_v4 r0 = Some 0 /\ s_v4 r1 = Some 0.
 Proof.
-  exists [New (est 0) (Some 0) None None; Ck 0; Done 0; Crash true None 0%Z; New (est 1) (Some 0) None None].
+  exists [New (est 0) (Some 0) None None; Ck 0; Done 0 false; Crash true None 0%Z; New (est 1) (Some 0) None None].
   eexists. eexists. eexists. split; [vm_compute; reflexivity|]. cbn. repeat split.
 Qed.
 Print Assumptions C12_reserved_before_alloc_refuted.
@@ -152,7 +189,7 @@ Print Assumptions C12_reserved_before_alloc_refuted.
 Theorem C12_latest_image_refuted :
   exists ops s r, run (today IPoE 4 4 2) init ops = Some s /\ aget 0 (live s) = Some r /\ s_stamp r = Some 0.
 Proof.
-  exists [New (est 0) (Some 0) None None; Ck 0; Ck 0; Done 1; Done 0; Crash true None 0%Z].
+  exists [New (est 0) (Some 0) None None; Ck 0; Ck 0; Done 1 false; Done 0 false; Crash true None 0%Z].
   eexists. eexists. split; [vm_compute; reflexivity|]. cbn. split; reflexivity.
 Qed.
 Print Assumptions C12_latest_image_refuted.
@@ -160,7 +197,7 @@ Print Assumptions C12_latest_image_refuted.
 (* non-vacuity: under the repaired discipline the overtaken Put is dropped, session 0 stays gone while session 1 is
    restored with its address reserved; the hypotheses of the three theorems are met by this history *)
 Definition ex_ops : list op :=
-  [New (est 0) (Some 0) None None; New (est 1) (Some 1) None None; Ck 0; Ck 1; Rel 0; Done 1; Done 0].
+  [New (est 0) (Some 0) None None; New (est 1) (Some 1) None None; Ck 0; Ck 1; Rel 0; Done 1 false; Done 0 false].
 Example C12_nonvacuous :
   exists s, run (repaired PPPoE 4 4 2) init ex_ops = Some s /\ In 0 (released s) /\
     (exists r, aget 1 (store s) = Some r /\ expired (repaired PPPoE 4 4 2) 0 r = false /\
